@@ -697,3 +697,276 @@ def compare_module(a, b, path, out, ctx):
                              {k: ([tuple(i) if isinstance(i, (list, tuple)) else i for i in v] if isinstance(v, list) else v) for k, v in pb.items()},
                              f"{path}/payload"):
             out.append((p_, x, y))
+
+
+# =============================================================================== encoder
+class Choices:
+    """Legal encoding choices the reference encoder makes on its own (none of them is what rv's writer does)."""
+
+    def __init__(self, rng=None, **kw):
+        r = rng
+        self.header_perm = None            # permutation seed for the independent project header chunks
+        self.time_reps_when_zero = False
+        self.flgs_when_zero = True
+        self.slnk2 = "native"              # native | always | never
+        self.slnk_trailing = 0
+        self.drawn_always = False          # write the drawn waveform chunk even when unchanged
+        self.drawn_omit_ff_fr = False      # CHFF/CHFR are optional when default
+        self.np_curve_always = False
+        self.cval_keep = None              # {module index: number of CVAL chunks kept}
+        self.legacy_header = False         # 1.x header subset: VERS, BPM, SPED, GVOL only
+        self.smin_empty = False
+        if r is not None:
+            self.header_perm = r.randrange(1 << 30) if r.random() < 0.5 else None
+            self.time_reps_when_zero = r.random() < 0.5
+            self.flgs_when_zero = r.random() < 0.5
+            self.slnk2 = r.choice(("native", "always", "never", "native"))
+            self.slnk_trailing = r.choice((0, 0, 1, 3))
+            self.drawn_always = r.random() < 0.5
+            self.drawn_omit_ff_fr = r.random() < 0.5
+            self.np_curve_always = r.random() < 0.5
+        for k, v in kw.items():
+            setattr(self, k, v)
+
+    def describe(self):
+        return {k: v for k, v in self.__dict__.items()}
+
+
+def _c(cid, payload):
+    return (cid, payload)
+
+
+def _p32(v):
+    return struct.pack("<I", v & 0xFFFFFFFF)
+
+
+def _pi32(v):
+    return struct.pack("<i", v)
+
+
+def encode(ad, ch=None, depth=0):
+    ch = ch or Choices()
+    if ad["kind"] == "project":
+        return iffparse.build(encode_project(ad, ch, depth))
+    return iffparse.build(encode_synth(ad, ch, depth))
+
+
+def encode_project(ad, ch, depth=0):
+    import random as _random
+    out = [_c(b"SVOX", b"")]
+    fv = ad["file_version"]
+    hdr = [(b"VERS", bytes(reversed(fv)))]
+    if ch.legacy_header and depth == 0:
+        hdr += [(b"BPM ", _p32(ad["initial_bpm"])), (b"SPED", _p32(ad["initial_tpl"])), (b"GVOL", _p32(ad["global_volume"]))]
+    else:
+        body = [(b"BVER", bytes(reversed(ad["based_on_version"])))]
+        if ad["flags"] or ch.flgs_when_zero:
+            body.append((b"FLGS", _p32(ad["flags"])))
+        body.append((b"SFGS", _p32(ad["receive_sync_midi"] | (ad["receive_sync_other"] << 3))))
+        for cid, key in ((b"BPM ", "initial_bpm"), (b"SPED", "initial_tpl"), (b"TGRD", "time_grid"), (b"TGD2", "time_grid2"), (b"GVOL", "global_volume")):
+            body.append((cid, _p32(ad[key])))
+        body.append((b"NAME", ad["name"].encode(ENC) + b"\0"))
+        body += [(b"MSCL", _p32(ad["modules_scale"])), (b"MZOO", _p32(ad["modules_zoom"])), (b"MXOF", _pi32(ad["modules_x_offset"])),
+                 (b"MYOF", _pi32(ad["modules_y_offset"])), (b"LMSK", _p32(ad["modules_layer_mask"])), (b"CURL", _p32(ad["modules_current_layer"]))]
+        if ad["timeline_position"] or ch.time_reps_when_zero:
+            body.append((b"TIME", _pi32(ad["timeline_position"])))
+        if ad["restart_position"] or ch.time_reps_when_zero:
+            body.append((b"REPS", _pi32(ad["restart_position"])))
+        body += [(b"SELS", _p32(ad["selected_module"])), (b"LGEN", _pi32(ad["selected_generator"])), (b"PATN", _p32(ad["current_pattern"])),
+                 (b"PATT", _p32(ad["current_track"])), (b"PATL", _p32(ad["current_line"]))]
+        if ch.header_perm is not None and depth == 0:
+            _random.Random(ch.header_perm).shuffle(body)
+        hdr += body
+    out += hdr
+    for q in ad["patterns"]:
+        if q is not None:
+            if q["kind"] == "clone":
+                out += [(b"PPAR", _p32(q["source"])), (b"PFFF", _p32(q["flags_PFFF"])), (b"PXXX", _pi32(q["x"])), (b"PYYY", _pi32(q["y"]))]
+            else:
+                out.append((b"PDTA", q["cells"]))
+                if q["name"] is not None:
+                    out.append((b"PNME", q["name"].encode(ENC) + b"\0"))
+                out += [(b"PCHN", _p32(q["tracks"])), (b"PLIN", _p32(q["lines"])), (b"PYSZ", _p32(q["y_size"])), (b"PFLG", _p32(q["flags_PFLG"])),
+                        (b"PICO", q["icon"]), (b"PFGC", bytes(q["fg_color"])), (b"PBGC", bytes(q["bg_color"])), (b"PFFF", _p32(q["flags_PFFF"])),
+                        (b"PXXX", _pi32(q["x"])), (b"PYYY", _pi32(q["y"]))]
+        out.append((b"PEND", b""))
+    for i, m in enumerate(ad["modules"]):
+        if m is not None:
+            out += encode_module(m, "project", i, ch, depth)
+        out.append((b"SEND", b""))
+    return out
+
+
+def encode_synth(ad, ch, depth=0):
+    out = [_c(b"SSYN", b""), (b"VERS", bytes(reversed(ad["file_version"])))]
+    out += encode_module(ad["module"], "synth", 1, ch, depth)
+    out.append((b"SEND", b""))
+    return out
+
+
+def stored_value(c, v, unit_member=None):
+    if c.kind in ("bool", "enum"):
+        return int(v)
+    if c.kind in ("no_offset", "dependent"):
+        return v
+    return v - c.min if c.min < 0 else v
+
+
+def encode_module(m, ctx, index, ch, depth):
+    t = spec.by_mtype()[m["type"]]
+    out = [(b"SFFF", _p32(m["flags"]))]
+    name = m["name"].encode(ENC)
+    assert len(name) <= 32, "caller must pass names already cut to the documented limit"
+    out.append((b"SNAM", name.ljust(32, b"\0")))
+    if m["type"] != "Output":
+        out.append((b"STYP", m["type"].encode(ENC) + b"\0"))
+    out += [(b"SFIN", _pi32(m["finetune"])), (b"SREL", _pi32(m["relative_note"]))]
+    if ctx == "project":
+        out += [(b"SXXX", _pi32(m["x"])), (b"SYYY", _pi32(m["y"])), (b"SZZZ", _p32(m["layer"]))]
+    out.append((b"SSCL", _p32(m["scale"])))
+    if ctx == "project":
+        out.append((b"SVPR", _p32(m["visualization"])))
+    out += [(b"SCOL", bytes(m["color"])), (b"SMII", _p32(int(m["midi_in_always"]) | (m["midi_in_channel"] << 1)))]
+    if m["midi_out_name"]:
+        out.append((b"SMIN", m["midi_out_name"].encode(ENC) + b"\0"))
+    out += [(b"SMIC", _p32(m["midi_out_channel"])), (b"SMIB", _pi32(m["midi_out_bank"])), (b"SMIP", _pi32(m["midi_out_program"]))]
+    if ctx == "project":
+        links, slots = list(m["links"]["in"]), list(m["links"]["in_slots"])
+        tail = [-1] * ch.slnk_trailing if links else []
+        out.append((b"SLNK", struct.pack("<" + "i" * (len(links) + len(tail)), *(links + tail))))
+        native = any(s not in (0, -1) for s in slots)
+        if links and (ch.slnk2 == "always" or (ch.slnk2 == "native" and native)):
+            out.append((b"SLnK", struct.pack("<" + "i" * (len(slots) + len(tail)), *(slots + tail))))
+    # controller values
+    names = [c.name for c in t.controllers if c.attached]
+    vals = [stored_value(t.ctl(n), m["controllers"][n]) for n in names]
+    cm = [m["cmid"].get(n, (0, 0, 0, 0)) for n in names]
+    if m["type"] == "MetaModule":
+        n_user = m["payload"]["count"]
+        for i in range(n_user):
+            nm = f"user_defined_{i + 1}"
+            vals.append(m["payload"]["user_values_raw"][nm])
+            cm.append(m["cmid"].get(nm, (0, 0, 0, 0)))
+    keep = len(vals)
+    if ch.cval_keep and index in ch.cval_keep and depth == 0 and m["type"] != "MetaModule":
+        keep = min(keep, ch.cval_keep[index])
+    for v in vals[:keep]:
+        out.append((b"CVAL", _pi32(v)))
+    if keep:
+        out.append((b"CMID", b"".join(struct.pack("<BBBBHBB", mt, chn, sl, 0, par, 0, 0xFF if mt == 0 else 0xC8) for mt, chn, sl, par in cm[:keep])))
+    spec_chunks = encode_payload(m, t, ch, depth)
+    if spec_chunks:
+        top = max(num for num, _d, _ff, _fr in spec_chunks) + 1
+        declared = {"MetaModule": 104, "Sampler": 0x10B}.get(m["type"], max(top, 4))
+        out.append((b"CHNK", _p32(max(declared, top))))
+        for num, data, ff, fr in spec_chunks:
+            out.append((b"CHNM", _p32(num)))
+            out.append((b"CHDT", data))
+            if ff is not None:
+                out.append((b"CHFF", _p32(ff)))
+            if fr is not None:
+                out.append((b"CHFR", _p32(fr)))
+    return out
+
+
+def encode_options(m, t):
+    rec = bytearray(max(o.byte for o in t.options) + 1)
+    for o in t.options:
+        v = m["options"][o.name]
+        if o.size == 1:
+            v = bool(v)
+            if o.inverted:
+                v = not v
+        rec[o.byte] |= (int(v) & ((1 << o.size) - 1)) << o.bit
+    return bytes(rec)
+
+
+def encode_envelope(e, lo_y):
+    flags = int(e["enable"]) | int(e["sustain"]) << 1 | int(e["loop"]) << 2
+    b = struct.pack("<HBBB", flags, e["ctl_index"], e["gain_pct"], e["velocity"]) + b"\0\0\0"
+    b += struct.pack("<HHHH", len(e["points"]), e["sustain_point"], e["loop_start_point"], e["loop_end_point"]) + b"\0\0\0\0"
+    for x, y in e["points"]:
+        b += struct.pack("<HH", x, y - lo_y)
+    return b
+
+
+def encode_payload(m, t, ch, depth):
+    """-> list of (chnm, data, chff or None, chfr or None) in ascending chunk number."""
+    ty = m["type"]
+    pl = m.get("payload") or {}
+    out = []
+    if ty == "MultiSynth":
+        out.append((0, bytes(pl["nv_curve"]), None, None))
+        out.append((1, encode_options(m, t), None, None))
+        out.append((2, bytes(pl["vv_curve"]), None, None))
+        if ch.np_curve_always or pl["np_curve"] != _spec_chunk_default(t, "note_pitch_curve"):
+            out.append((3, struct.pack("<128H", *pl["np_curve"]), None, None))
+    elif ty == "MultiCtl":
+        out.append((0, b"".join(struct.pack("<8I", *mp) for mp in pl["mappings"]), None, None))
+        out.append((1, struct.pack("<257H", *pl["curve"]), None, None))
+    elif ty == "WaveShaper":
+        out.append((0, struct.pack("<256H", *pl["curve"]), None, None))
+    elif ty == "SpectraVoice":
+        out.append((0, struct.pack("<16H", *pl["harmonic_freqs"]), None, None))
+        out.append((1, bytes(pl["harmonic_volumes"]), None, None))
+        out.append((2, bytes(pl["harmonic_widths"]), None, None))
+        out.append((3, bytes(pl["harmonic_types"]), None, None))
+    elif ty in ("Analog generator", "Generator"):
+        if ch.drawn_always or list(pl["drawn_waveform"]) != DRAWN_DEFAULT:
+            ff, fr = (None, None) if ch.drawn_omit_ff_fr else (1, 44100)
+            out.append((0, bytes(v & 0xFF for v in pl["drawn_waveform"]), ff, fr))
+        if ty == "Analog generator":
+            out.append((1, encode_options(m, t), None, None))
+    elif ty == "FMX":
+        out.append((0, struct.pack("<256f", *pl["custom_waveform"]), None, None))
+    elif ty == "Vorbis player":
+        out.append((0, pl["data"], None, None))
+    elif ty == "Sound2Ctl":
+        out.append((0, encode_options(m, t), None, None))
+    elif ty == "MetaModule":
+        out.append((0, encode(pl["project"], ch, depth + 1), None, None))
+        out.append((1, b"".join(struct.pack("<HH", a, b) for a, b in pl["mappings"]), None, None))
+        out.append((2, encode_options(m, t), None, None))
+        for i in sorted(pl["labels"]):
+            out.append((8 + i, pl["labels"][i].encode(ENC) + b"\0", None, None))
+    elif ty == "Sampler":
+        rec = bytearray(400)
+        struct.pack_into("<I", rec, 0, pl.get("unused1", 0))
+        rec[4:4 + len(pl["instrument_name"])] = pl["instrument_name"]
+        struct.pack_into("<H", rec, 0x1a, pl.get("unused2", 0))
+        struct.pack_into("<H", rec, 0x1c, (max(pl["samples"]) + 1) if pl["samples"] else 0)
+        struct.pack_into("<H", rec, 0x1e, pl.get("unused3", 0))
+        struct.pack_into("<I", rec, 0x20, pl.get("unused4", 0))
+        rec[0x24:0x84] = bytes(pl["note_samples"][:96])
+        # legacy mirrors are left zero: a current reader must take envelopes from their own chunks
+        rec[0xee], rec[0xef], rec[0xf0], rec[0xf1] = pl["vibrato_type"], pl["vibrato_attack"], pl["vibrato_depth"], pl["vibrato_rate"]
+        struct.pack_into("<H", rec, 0xf2, pl["volume_fadeout"])
+        rec[0xf4] = pl["volume_old"]
+        struct.pack_into("<b", rec, 0xf5, pl["ins_finetune"])
+        rec[0xf6] = pl.get("unused5", 0)
+        struct.pack_into("<b", rec, 0xf7, pl["ins_relative_note"])
+        struct.pack_into("<I", rec, 0xf8, pl.get("unused6", 0))
+        rec[0xfc:0x100] = b"PMAS"
+        struct.pack_into("<I", rec, 0x100, pl["version"])
+        rec[0x104:0x104 + 119] = bytes(pl["note_samples"])
+        struct.pack_into("<I", rec, 0x184, pl["max_version"])
+        struct.pack_into("<ii", rec, 0x188, pl["editor_cursor"], pl["editor_selected_size"])
+        out.append((0, bytes(rec), None, None))
+        for i in sorted(pl["samples"]):
+            s = pl["samples"][i]
+            frame = {1: 1, 2: 2, 4: 4}[s["format"]] * (2 if s["channels"] else 1)
+            typ = s["loop_type"] | (4 if s["loop_sustain"] else 0) | {1: 0, 2: 0x10, 4: 0x20}[s["format"]] | (0x40 if s["channels"] else 0)
+            h = struct.pack("<IIIBbBBbB", len(s["data"]) // frame, s["loop_start"], s["loop_len"], s["volume"], s["finetune"], typ,
+                            s["panning"] + 0x80, s["relative_note"], s["reserved2"])
+            h += s["name"].ljust(22, b"\0") + struct.pack("<I", s["start_pos"])
+            out.append((2 * i + 1, h, None, None))
+            out.append((2 * i + 2, s["data"], s["format"] | s["channels"], s["rate"]))
+        out.append((0x101, encode_options(m, t), None, None))
+        out.append((0x102, encode_envelope(pl["volume_envelope"], 0), None, None))
+        out.append((0x103, encode_envelope(pl["panning_envelope"], -0x4000), None, None))
+        out.append((0x104, encode_envelope(pl["pitch_envelope"], -0x4000), None, None))
+        for k in range(4):
+            out.append((0x105 + k, encode_envelope(pl["effect_control_envelopes"][k], 0), None, None))
+        if pl["effect"] is not None:
+            out.append((0x10a, encode(pl["effect"], ch, depth + 1), None, None))
+    return out
